@@ -133,12 +133,6 @@ def gen_case(rng, cid, families=None, kinds=('mh', 'pt'), allow_saveload=True,
     # reset_after_swap: exchanged levels restart their adaptation (a third of the tempered cases)
     if c.kind == 'pt' and orng.random() < 0.35:
         c.reset_after_swap = True
-    # a proposal is given for a SUBSET of the parameters only (the sampler builds its default proposal
-    # for the rest): one proposal over continuous parameters is left out in a fifth of the cases
-    c.unlisted = None
-    cont = [i for i, (fam, _, _) in enumerate(c.props) if F.FAMILIES[fam][1] in ('real', 'angle', 'box')]
-    if len(c.props) >= 2 and cont and orng.random() < 0.2:
-        c.unlisted = orng.choice(cont)
     # the jump interval arrives as a numpy integer now and then
     for _, _, kw in c.props:
         if 'jump_interval' in kw and orng.random() < 0.3:
@@ -153,6 +147,12 @@ def gen_case(rng, cid, families=None, kinds=('mh', 'pt'), allow_saveload=True,
         for fam, names, _ in c.props:
             if F.FAMILIES[fam][1] != 'sphere':      # (azimuth, polar) is a positional pair
                 orng.shuffle(names)
+    # a proposal is given for a SUBSET of the parameters only (the sampler builds its default proposal
+    # for the rest): one proposal over continuous parameters is left out in a fifth of the cases
+    c.unlisted = None
+    cont = [i for i, (fam, _, _) in enumerate(c.props) if F.FAMILIES[fam][1] in ('real', 'angle', 'box')]
+    if len(c.props) >= 2 and cont and orng.random() < 0.2:
+        c.unlisted = orng.choice(cont)
     # ops
     nops = rng.randint(2, max_ops)
     for _ in range(nops):
